@@ -315,7 +315,7 @@ class Run:
 
     # ---------------------------------------------------------------------------------- correspondence
     def corr(self, name: str, module: str, cases, check='check', nontrivial='nontrivial', shard=250, timeout=900,
-             extra_evals=(), both=None):
+             extra_evals=(), both=None, cost=None, budget=None):
         """Evaluate `module.check` on every case inside Coq (vm_compute). cases: list of lists of floats.
         Returns (failing indices, number of nontrivial cases as counted by the Gallina predicate).
         `both` names a function `list float -> bool * bool` (check, nontrivial) evaluated once per case (for expensive models).
@@ -367,7 +367,20 @@ class Run:
             return res
 
         failing, nt, errs, unevaluated = [], 0, [], []
-        jobs = [(str(k // shard), list(range(k, min(k + shard, len(cases))))) for k in range(0, len(cases), shard)]
+        if cost is None:
+            jobs = [(str(k // shard), list(range(k, min(k + shard, len(cases))))) for k in range(0, len(cases), shard)]
+        else:
+            # shards of bounded estimated cost (and at most `shard` cases): expensive cases get shards of their own and run side by side
+            jobs, cur, acc = [], [], 0.0
+            for i, c in enumerate(cases):
+                ci = float(cost(c))
+                if cur and (acc + ci > budget or len(cur) >= shard):
+                    jobs.append((str(len(jobs)), cur))
+                    cur, acc = [], 0.0
+                cur.append(i)
+                acc += ci
+            if cur:
+                jobs.append((str(len(jobs)), cur))
         rnd = 0
         with CoqLock(shared=True):
             while jobs:
